@@ -184,13 +184,40 @@ def convert_failures():
             fails.append({'id': ident, 'problem': 'convert modified its input'})
         elif ename in out.coords and not (out.coords[ename].unit == energy.unit and np.array_equal(out.coords[ename].values, energy.values)):
             fails.append({'id': ident, 'problem': f'the {ename} coordinate on the result is not the one supplied'})
+    # the geometry named explicitly: data that carry both energies, converted with the graph that conversion_graph() hands out for the mode
+    for (mode, ename, kname), dt in itertools.product((('direct_inelastic', 'incident_energy', 'energy_transfer_direct_from_tof'),
+                                                       ('indirect_inelastic', 'final_energy', 'energy_transfer_indirect_from_tof')), ('float64', 'float32')):
+        ident = f'graph:{mode}:{dt}'
+        tvals = np.array([[9000.0, 12000.0, 20000.0], [8000.0, 13000.0, 21000.0]])
+        energies = {'incident_energy': sc.scalar(25.0, unit='meV').to(dtype=dt), 'final_energy': sc.scalar(7.0, unit='meV').to(dtype=dt)}
+        da = sc.DataArray(sc.ones(dims=['spectrum', 'tof'], shape=[2, 3], unit='counts'),
+                          coords={'tof': sc.array(dims=['spectrum', 'tof'], values=tvals, unit='us').to(dtype=dt),
+                                  'position': sc.vectors(dims=['spectrum'], values=pos, unit='m'), 'source_position': sc.vector([0.0, 0.0, -12.0], unit='m'),
+                                  'sample_position': sc.vector([0.0, 0.0, 0.0], unit='m'), **energies})
+        try:
+            with warnings.catch_warnings():
+                warnings.simplefilter('ignore')
+                graph = conv.conversion_graph('tof', 'energy_transfer', True, mode)
+                out = da.transform_coords('energy_transfer', graph=graph)
+            L1 = bl.L1(incident_beam=bl.straight_incident_beam(source_position=da.coords['source_position'], sample_position=da.coords['sample_position']))
+            L2 = bl.L2(scattered_beam=bl.straight_scattered_beam(position=da.coords['position'], sample_position=da.coords['sample_position']))
+            want = getattr(tof, kname)(tof=da.coords['tof'], L1=L1, L2=L2, **{ename: energies[ename]})
+        except Exception as e:  # noqa: BLE001
+            fails.append({'id': ident, 'problem': f'raised {type(e).__name__}: {e}'[:300]})
+            continue
+        got = out.coords.get('energy_transfer')
+        if got is None or got.unit != want.unit or got.dtype != want.dtype or got.values.shape != want.values.shape \
+                or not np.allclose(got.values, want.values, rtol=1e-5 if dt == 'float32' else 1e-12, atol=0, equal_nan=True):
+            fails.append({'id': ident, 'problem': f'the graph handed out for {mode} does not give the {kname} result for the supplied {ename}: '
+                                                  f'{None if got is None else got.values.ravel()[:2]} vs {want.values.ravel()[:2]}'})
     return fails
 
 
 def convert_probe(chk):
     fails = convert_failures()
     chk.bounded_check('convert-entry-point', 'real convert(tof -> energy_transfer) vs the kernels on the supplied operands: value, dtype, unit of the supplied energy, input untouched',
-                      '2 kernels x 4 energy units x float64/float32 x scalar/per-pixel energy', 32, fails[:6])
+                      '2 kernels x 4 energy units x float64/float32 x scalar/per-pixel energy; the graph of conversion_graph() for either inelastic mode on data with both energies '
+                      '(2 modes x 2 float types)', 36, fails[:6])
 
 
 def replay(rec):
